@@ -137,7 +137,7 @@ Underflow ==
                   /\ frames' = [frames EXCEPT ![Len(frames)] = [f EXCEPT !.a = Cur, !.b = Cur, !.final = c.final, !.newDt = d, !.pc = "post"]]
                   /\ dt' = d /\ status' = status /\ last' = "Step"
              ELSE /\ frames' = << >> /\ status' = "failed"
-                  /\ UNCHANGED <<rows, sol, dt>> /\ last' = "Fault"
+                  /\ UNCHANGED <<rows, sol, dt>> /\ last' = "Underflow"
     /\ UNCHANGED <<t0, tf, dt0, events, ncalls>>
 
 (***************************************************************************)
@@ -304,7 +304,7 @@ TerminalStop ==
            /\ \E r \in ROOTS : r.t = Last(events).t /\ r.ev = Last(events).ev /\ r.term]_vars
 (* C12 *)
 FailureLeavesPrefix ==
-    [][last' = "Fault" => /\ Len(rows') >= 1 /\ rows'[1] = t0
+    [][last' \in {"Fault", "Underflow"} => /\ Len(rows') >= 1 /\ rows'[1] = t0
                           /\ (DENSE => (Len(sol') = Len(rows') - 1))
                           /\ status' = "failed"]_vars
 
